@@ -31,7 +31,8 @@ Record svc : Type := mkSvc {
   s_port : N;
   s_txt : bytes;              (* generate_txt() *)
   s_probe : bool;             (* requires_probe *)
-  s_status : list (N * status) }.
+  s_status : list (N * status);
+  s_auto : bool }.            (* addr_auto: addresses follow the interface table *)
 
 Fixpoint nget {V} (k : N) (l : list (N * V)) : option V :=
   match l with [] => None | (k', v) :: t => if k =? k' then Some v else nget k t end.
@@ -43,7 +44,9 @@ Fixpoint nset {V} (k : N) (v : V) (l : list (N * V)) : list (N * V) :=
 
 Definition set_status (i : N) (st : status) (s : svc) : svc :=
   mkSvc (s_ty s) (s_sub s) (s_full s) (s_host s) (s_addrs s) (s_port s) (s_txt s) (s_probe s)
-        (nset i st (s_status s)).
+        (nset i st (s_status s)) (s_auto s).
+Definition set_addrs (a : list bytes) (s : svc) : svc :=
+  mkSvc (s_ty s) (s_sub s) (s_full s) (s_host s) a (s_port s) (s_txt s) (s_probe s) (s_status s) (s_auto s).
 Definition announced_on (i : N) (s : svc) : bool :=
   match nget i (s_status s) with Some SAnnounced => true | _ => false end.
 
@@ -76,11 +79,11 @@ Inductive dest := Mcast | Ucast (ip : bytes) (port : N).
 
 Inductive out : Type :=
 | OSend (ifidx : N) (v4 : bool) (d : dest) (m : omsg)
-| OResend (ifidx : N) (v4 : bool) (m : omsg)                    (* multicast_on_intf without set_multicast_if_* *)
 | OAnnounce (name : bytes) (detail : option (bytes * bytes))   (* DaemonEvent::Announce; Some (host, intf) *)
 | ONameChange (orig new : bytes) (ty : N) (ifname : bytes)     (* DaemonEvent::NameChange *)
 | ORespond (ifname : bytes)                                    (* DaemonEvent::Respond *)
 | OReply (ch : bytes) (ok : bool)                              (* UnregisterStatus::OK / NotFound *)
+| OIp (added : bool) (ip : bytes)                              (* DaemonEvent::IpAdd / IpDel *)
 | OExit.
 
 Definition wire_rr (p : prec) : rr :=
@@ -89,6 +92,20 @@ Definition wire_rr (p : prec) : rr :=
 Definition addr_type (a : bytes) : N := if is_v4 a then TY_A else TY_AAAA.
 
 (* ---- commands kept in `retransmissions` ------------------------------------------------------------- *)
+
+(* one row of the OS interface table: one address of one interface *)
+Record osrow : Type := mkRow { os_name : bytes; os_index : N; os_ip : bytes; os_mask : bytes }.
+
+(* IfKind, the forms used in the histories *)
+Inductive ifkind : Type := KAll | KV4 | KV6 | KName (n : bytes) | KUnsupported.
+Definition kind_matches (k : ifkind) (r : osrow) : bool :=
+  match k with
+  | KAll => true
+  | KV4 => is_v4 (os_ip r)
+  | KV6 => negb (is_v4 (os_ip r))
+  | KName n => beq n (os_name r)
+  | KUnsupported => false
+  end.
 
 Inductive cmd : Type :=
 | RegisterResend (full : bytes) (ifidx : N)
@@ -101,9 +118,15 @@ Record dstate : Type := mkD {
   d_retrans : list (N * cmd);
   d_mon : bool;                        (* a monitor channel is registered *)
   d_dead : bool;
-  d_mif4 : option N }.                 (* IP_MULTICAST_IF of the IPv4 socket: interface of the last send_dns_outgoing *)
+  d_os : list osrow;                   (* the OS interface table (my_ip_interfaces_inner), in table order *)
+  d_sel : list (ifkind * bool) }.      (* if_selections: enable_interface / disable_interface so far *)
 
-Definition d_init (ifs : list intf) : dstate := mkD ifs [] [] [] false false None.
+Definition rows_of (ifs : list intf) : list osrow :=
+  flat_map (fun i => map (fun a => mkRow (if_name i) (if_index i) (ia_ip a) (ia_mask a)) (if_addrs i)) ifs.
+
+(* the daemon starts with every row of the OS table bound; `os` = the table in its own order *)
+Definition d_init_os (ifs : list intf) (os : list osrow) : dstate := mkD ifs [] [] [] false false os [].
+Definition d_init (ifs : list intf) : dstate := d_init_os ifs (rows_of ifs).
 
 Definition get_reg (st : dstate) (i : N) : registry :=
   match nget i (d_regs st) with Some r => r | None => reg_new end.
@@ -188,11 +211,26 @@ Fixpoint register_intfs (ifs : list intf) (s : svc) (regs : list (N * registry))
 
 Definition sput (k : bytes) (s : svc) (l : list (bytes * svc)) : list (bytes * svc) := aset k s l.
 
-Definition register_service (st : dstate) (s : svc) (now : N) (js : list N) : dstate * list out * list N :=
+(* if_selections applied to one row of the OS table: selected by default, the last matching
+   selection decides *)
+Definition row_selected (sel : list (ifkind * bool)) (r : osrow) : bool :=
+  fold_left (fun acc kb => if kind_matches (fst kb) r then snd kb else acc) sel true.
+
+Definition add_ip (a : bytes) (l : list bytes) : list bytes := if mem a l then l else l ++ [a].
+Definition del_ip (a : bytes) (l : list bytes) : list bytes := filter (fun x => negb (beq x a)) l.
+
+(* register_service for an addr_auto service: insert_ipaddr for every selected row *)
+Definition auto_addrs (st : dstate) (s : svc) : svc :=
+  if s_auto s
+  then set_addrs (fold_left (fun l r => if row_selected (d_sel st) r then add_ip (os_ip r) l else l) (d_os st) (s_addrs s)) s
+  else s.
+
+Definition register_service (st : dstate) (s0 : svc) (now : N) (js : list N) : dstate * list out * list N :=
+  let s := auto_addrs st s0 in
   let '(s', regs, os, anns, js') := register_intfs (d_intfs st) s (d_regs st) now js in
   let ev := match anns with [] => [] | _ => mon (d_mon st) [OAnnounce (s_full s) None] end in
   let rt := map (fun i => (now + announce_repeat_register, RegisterResend (s_full s) i)) anns in
-  (mkD (d_intfs st) regs (sput (lower (s_full s)) s' (d_svcs st)) (d_retrans st ++ rt) (d_mon st) (d_dead st) (d_mif4 st),
+  (mkD (d_intfs st) regs (sput (lower (s_full s)) s' (d_svcs st)) (d_retrans st ++ rt) (d_mon st) (d_dead st) (d_os st) (d_sel st),
    os ++ ev, js').
 
 (* ---- exec_command_register_resend ---------------------------------------------------------------------------------- *)
@@ -209,33 +247,39 @@ Definition register_resend (st : dstate) (full : bytes) (i : N) (now : N) (js : 
       let ev := mon (d_mon st) [OAnnounce (resolve_name rg' full)
                                           (Some (resolve_name rg' (s_host s), if_name itf))] in
       (mkD (d_intfs st) (nset i rg' (d_regs st)) (sput (lower full) (set_status i SAnnounced s) (d_svcs st))
-           (d_retrans st) (d_mon st) (d_dead st) (d_mif4 st), os ++ ev, js')
+           (d_retrans st) (d_mon st) (d_dead st) (d_os st) (d_sel st), os ++ ev, js')
     else
-      (mkD (d_intfs st) (nset i rg' (d_regs st)) (d_svcs st) (d_retrans st) (d_mon st) (d_dead st) (d_mif4 st), os, js')
+      (mkD (d_intfs st) (nset i rg' (d_regs st)) (d_svcs st) (d_retrans st) (d_mon st) (d_dead st) (d_os st) (d_sel st), os, js')
   | _, _, _ => (st, [], js)
   end.
 
 (* ---- unregister_service: the goodbye packet ----------------------------------------------------------------------------- *)
 
-Definition goodbye_msg (s : svc) (addrs : list bytes) : omsg :=
+(* the names are those most recently announced on the interface: resolved through its registry *)
+Definition goodbye_msg (rg : registry) (s : svc) (addrs : list bytes) : omsg :=
+  let full := resolve_name rg (s_full s) in
+  let host := resolve_name rg (s_host s) in
   mkOut true []
-    (ptr_rrs s 0 (s_full s)
-     ++ [mkRR (s_full s) TY_SRV class_in true 0 (RSrv 0 0 (s_port s) (s_host s));
-         mkRR (s_full s) TY_TXT class_in true 0 (RTxt (s_txt s))]
-     ++ map (fun a => mkRR (s_host s) (addr_type a) class_in true 0 (RAddr a)) addrs)
+    (ptr_rrs s 0 full
+     ++ [mkRR full TY_SRV class_in true 0 (RSrv 0 0 (s_port s) host);
+         mkRR full TY_TXT class_in true 0 (RTxt (s_txt s))]
+     ++ map (fun a => mkRR host (addr_type a) class_in true 0 (RAddr a)) addrs)
     [] [].
 
 (* one family on one interface: the packet if it is sent *)
-Definition goodbye_on (s : svc) (i : intf) (v4 : bool) : option omsg :=
+Definition goodbye_on (st : dstate) (s : svc) (i : intf) (v4 : bool) : option omsg :=
   match addrs_on_intf s i v4 with
   | [] => None
-  | addrs => Some (goodbye_msg s addrs)
+  | addrs => Some (goodbye_msg (get_reg st (if_index i)) s addrs)
   end.
 
-Definition goodbyes_of (s : svc) (ifs : list intf) : list (N * bool * omsg) :=
+(* only on interfaces where the service is in the announced state *)
+Definition goodbyes_of (st : dstate) (s : svc) : list (N * bool * omsg) :=
   flat_map (fun i =>
-    (match goodbye_on s i true with Some m => [(if_index i, true, m)] | None => [] end)
-    ++ (match goodbye_on s i false with Some m => [(if_index i, false, m)] | None => [] end)) ifs.
+    if announced_on (if_index i) s then
+      (match goodbye_on st s i true with Some m => [(if_index i, true, m)] | None => [] end)
+      ++ (match goodbye_on st s i false with Some m => [(if_index i, false, m)] | None => [] end)
+    else []) (d_intfs st).
 
 Definition send_of (g : N * bool * omsg) : out := let '(i, v4, m) := g in OSend i v4 Mcast m.
 
@@ -248,22 +292,23 @@ Definition unregister (st : dstate) (name_lower ch : bytes) (now : N) : dstate *
   match aget name_lower (d_svcs st) with
   | None => (st, [OReply ch false])
   | Some s =>
-    let gs := goodbyes_of s (d_intfs st) in
+    let gs := goodbyes_of st s in
     let rt := map (resend_of now) gs in
-    (mkD (d_intfs st) (d_regs st) (adel name_lower (d_svcs st)) (d_retrans st ++ rt) (d_mon st) (d_dead st) (d_mif4 st),
+    (mkD (d_intfs st) (d_regs st) (adel name_lower (d_svcs st)) (d_retrans st ++ rt) (d_mon st) (d_dead st) (d_os st) (d_sel st),
      map send_of gs ++ [OReply ch true])
   end.
 
+(* exec_command_unregister_resend: the saved packet again, through the interface it belongs to *)
 Definition unregister_resend (st : dstate) (m : omsg) (i : N) (v4 : bool) : list out :=
   match find_intf st i with
-  | Some itf => if intf_has_family itf v4 then [OResend i v4 m] else []
+  | Some itf => if intf_has_family itf v4 then [OSend i v4 Mcast m] else []
   | None => []
   end.
 
 (* cleanup: goodbyes for every service, once; then the thread exits *)
 Definition cleanup (st : dstate) : dstate * list out :=
-  (mkD (d_intfs st) (d_regs st) [] [] (d_mon st) true (d_mif4 st),
-   flat_map (fun ks => map send_of (goodbyes_of (snd ks) (d_intfs st))) (d_svcs st) ++ [OExit]).
+  (mkD (d_intfs st) (d_regs st) [] [] (d_mon st) true (d_os st) (d_sel st),
+   flat_map (fun ks => map send_of (goodbyes_of st (snd ks))) (d_svcs st) ++ [OExit]).
 
 (* ---- probing_handler ---------------------------------------------------------------------------------------------------------- *)
 
@@ -315,7 +360,7 @@ Fixpoint probing_intfs (ifs : list intf) (st : dstate) (now : N) (js : list N) :
       let '(rg2, svcs2, os2, rt2, js2) :=
         announce_waiting waiting itf rg1 (d_svcs st) now js (d_mon st) in
       let st1 := mkD (d_intfs st) (nset (if_index itf) rg2 (d_regs st)) svcs2 (d_retrans st ++ rt2)
-                     (d_mon st) (d_dead st) (d_mif4 st) in
+                     (d_mon st) (d_dead st) (d_os st) (d_sel st) in
       let '(st2, os3, js3) := probing_intfs t st1 now js2 in
       (st2, sends ++ nev ++ os2 ++ os3, js3)
     end
@@ -349,13 +394,17 @@ Definition handle_response (st : dstate) (g : dgram) (now : N) (js : list N) : d
     (* a TTL of 0 in a response is read as 1 by the decoder (the record lives one more second),
        so no incoming record is expired on arrival: goodbye records take part in the conflict check *)
     let (rg', js') := conflict_answers rg (g_an g) now js in
-    (mkD (d_intfs st) (nset (g_if g) rg' (d_regs st)) (d_svcs st) (d_retrans st) (d_mon st) (d_dead st) (d_mif4 st), js')
+    (mkD (d_intfs st) (nset (g_if g) rg' (d_regs st)) (d_svcs st) (d_retrans st) (d_mon st) (d_dead st) (d_os st) (d_sel st), js')
   | _, _ => (st, js)
   end.
 
 (* known-answer suppression: DnsRecordExt::suppressed_by *)
+(* (the cache-flush bit is not part of the record's identity here) *)
 Definition suppressed (g : dgram) (a : prec) : bool :=
-  existsb (fun o => matches a (mkP o None (g_if g)) && (r_ttl (p_rr a) / 2 <? r_ttl o)) (g_an g).
+  existsb (fun o =>
+             matches a (mkP (mkRR (r_name o) (r_type o) (r_class o) (r_flush (p_rr a)) (r_ttl o) (r_data o))
+                            None (g_if g))
+             && (r_ttl (p_rr a) / 2 <? r_ttl o)) (g_an g).
 
 Definition META_QUERY : bytes :=
   [95;115;101;114;118;105;99;101;115;46;95;100;110;115;45;115;100;46;95;117;100;112;46;108;111;99;97;108;46].
@@ -367,34 +416,38 @@ Definition opt_beq (o : option bytes) (b : bytes) : bool :=
 Definition add_all (g : dgram) (recs : list prec) : list rr :=
   map wire_rr (filter (fun r => negb (suppressed g r)) recs).
 
+(* answers, additionals, and the service types already listed for the meta query *)
 Definition answer_ptr_question (st : dstate) (g : dgram) (itf : intf) (rg : registry) (qn : bytes)
   : list rr * list rr :=
-  fold_left
-    (fun (acc : list rr * list rr) ks =>
+  fst (fold_left
+    (fun (accs : (list rr * list rr) * list bytes) ks =>
+       let '(acc, seen) := accs in
        let s := snd ks in
-       if negb (announced_on (g_if g) s) then acc
+       if negb (announced_on (g_if g) s) then accs
        else if beq qn (s_ty s) || opt_beq (s_sub s) qn then
          match addrs_on_intf s itf (g_v4 g) with
-         | [] => acc
+         | [] => accs
          | addrs =>
            let full := resolve_name rg (s_full s) in
            let host := resolve_name rg (s_host s) in
            let ptr := mkP (mkRR (s_ty s) TY_PTR class_in false dns_other_ttl (RPtr full)) None 0 in
-           if suppressed g ptr then acc
+           if suppressed g ptr then accs
            else
-             (fst acc ++ [wire_rr ptr],
-              snd acc
-              ++ (match s_sub s with
-                  | Some sb => [mkRR sb TY_PTR class_in false dns_other_ttl (RPtr full)]
-                  | None => [] end)
-              ++ [mkRR full TY_SRV class_in true dns_host_ttl (RSrv 0 0 (s_port s) host);
-                  mkRR full TY_TXT class_in true dns_other_ttl (RTxt (s_txt s))]
-              ++ map (fun a => mkRR host (addr_type a) class_in true dns_host_ttl (RAddr a)) addrs)
+             ((fst acc ++ [wire_rr ptr],
+               snd acc
+               ++ (match s_sub s with
+                   | Some sb => [mkRR sb TY_PTR class_in false dns_other_ttl (RPtr full)]
+                   | None => [] end)
+               ++ [mkRR full TY_SRV class_in true dns_host_ttl (RSrv 0 0 (s_port s) host);
+                   mkRR full TY_TXT class_in true dns_other_ttl (RTxt (s_txt s))]
+               ++ map (fun a => mkRR host (addr_type a) class_in true dns_host_ttl (RAddr a)) addrs), seen)
          end
        else if beq qn META_QUERY then
-         (fst acc ++ add_all g [mkP (mkRR qn TY_PTR class_in false dns_other_ttl (RPtr (s_ty s))) None 0], snd acc)
-       else acc)
-    (d_svcs st) ([], []).
+         if mem (s_ty s) seen then accs     (* one PTR per service type *)
+         else ((fst acc ++ add_all g [mkP (mkRR qn TY_PTR class_in false dns_other_ttl (RPtr (s_ty s))) None 0], snd acc),
+               s_ty s :: seen)
+       else accs)
+    (d_svcs st) (([], []), [])).
 
 Definition answer_addr_question (st : dstate) (g : dgram) (itf : intf) (rg : registry) (qn : bytes) (qt : N)
   : list rr :=
@@ -412,9 +465,11 @@ Definition answer_addr_question (st : dstate) (g : dgram) (itf : intf) (rg : reg
          else [])
     (d_svcs st).
 
+(* the service is found by its current (possibly renamed) full name; SRV target and the owner of
+   the address additionals are the host name it currently holds *)
 Definition answer_instance_question (st : dstate) (g : dgram) (itf : intf) (rg : registry) (qn : bytes) (qt : N)
   : list rr * list rr :=
-  match find (fun ks => beq (resolve_name rg (fst ks)) (lower qn)) (d_svcs st) with
+  match find (fun ks => beq (lower (resolve_name rg (s_full (snd ks)))) (lower qn)) (d_svcs st) with
   | None => ([], [])
   | Some (_, s) =>
     if negb (announced_on (g_if g) s) then ([], [])
@@ -422,14 +477,16 @@ Definition answer_instance_question (st : dstate) (g : dgram) (itf : intf) (rg :
       match addrs_on_intf s itf (g_v4 g) with
       | [] => ([], [])
       | addrs =>
-        ((if (qt =? TY_SRV) || (qt =? TY_ANY)
-          then add_all g [mkP (mkRR qn TY_SRV class_in true dns_host_ttl (RSrv 0 0 (s_port s) (s_host s))) None 0]
-          else [])
+        let host := resolve_name rg (s_host s) in
+        let srv := mkP (mkRR qn TY_SRV class_in true dns_host_ttl (RSrv 0 0 (s_port s) host)) None 0 in
+        let srv_wanted := (qt =? TY_SRV) || (qt =? TY_ANY) in
+        let srv_added := srv_wanted && negb (suppressed g srv) in
+        ((if srv_added then [wire_rr srv] else [])
          ++ (if (qt =? TY_TXT) || (qt =? TY_ANY)
              then add_all g [mkP (mkRR qn TY_TXT class_in true dns_other_ttl (RTxt (s_txt s))) None 0]
              else []),
-         if qt =? TY_SRV
-         then map (fun a => mkRR (s_host s) (addr_type a) class_in true dns_host_ttl (RAddr a)) addrs
+         if (qt =? TY_SRV) && srv_added
+         then map (fun a => mkRR host (addr_type a) class_in true dns_host_ttl (RAddr a)) addrs
          else [])
       end
   end.
@@ -466,7 +523,7 @@ Definition handle_query (st : dstate) (g : dgram) (now : N) : dstate * list out 
   match nget (g_if g) (d_regs st), find_intf st (g_if g) with
   | Some rg, Some itf =>
     let '(rg', an, ar) := handle_questions st g itf rg (g_q g) now in
-    let st' := mkD (d_intfs st) (nset (g_if g) rg' (d_regs st)) (d_svcs st) (d_retrans st) (d_mon st) (d_dead st) (d_mif4 st) in
+    let st' := mkD (d_intfs st) (nset (g_if g) rg' (d_regs st)) (d_svcs st) (d_retrans st) (d_mon st) (d_dead st) (d_os st) (d_sel st) in
     match an with
     | [] => (st', [])
     | _ =>
@@ -499,11 +556,99 @@ Fixpoint handle_dgrams (st : dstate) (gs : list dgram) (now : N) (js : list N) :
 
 (* ---- API calls (commands) ---------------------------------------------------------------------------------------------------------------- *)
 
+(* ---- enable_interface / disable_interface: apply_intf_selections --------------------------------------------------------------------- *)
+
+Fixpoint nremove {V} (k : N) (l : list (N * V)) : list (N * V) :=
+  match l with [] => [] | (k', v) :: t => if k =? k' then t else (k', v) :: nremove k t end.
+
+Definition has_addr (i : intf) (ip : bytes) : bool := existsb (fun a => beq (ia_ip a) ip) (if_addrs i).
+
+(* add_interface, when the row brings a new address: every addr_auto service gets the address
+   and is announced / starts probing on the row's family (no Announce event, no second
+   announcement is scheduled here) *)
+Fixpoint add_row_services (svcs : list (bytes * svc)) (itf : intf) (rg : registry) (ip : bytes)
+         (now : N) (js : list N) : list (bytes * svc) * registry * list out * list N :=
+  match svcs with
+  | [] => ([], rg, [], js)
+  | (k, s) :: t =>
+    if s_auto s then
+      let s1 := set_addrs (add_ip ip (s_addrs s)) s in
+      let '(rg1, m, js1) := prepare_announce s1 itf rg (is_v4 ip) now js in
+      let s2 := set_status (if_index itf) (match m with Some _ => SAnnounced | None => SProbing end) s1 in
+      let o := match m with Some msg => [OSend (if_index itf) (is_v4 ip) Mcast msg] | None => [] end in
+      let '(t', rg2, os2, js2) := add_row_services t itf rg1 ip now js1 in
+      ((k, s2) :: t', rg2, o ++ os2, js2)
+    else
+      let '(t', rg2, os2, js2) := add_row_services t itf rg ip now js in
+      ((k, s) :: t', rg2, os2, js2)
+  end.
+
+Definition add_interface (st : dstate) (r : osrow) (now : N) (js : list N) : dstate * list out * list N :=
+  let idx := os_index r in
+  let a := mkIA (os_ip r) (os_mask r) in
+  match find_intf st idx with
+  | Some itf0 =>
+    if has_addr itf0 (os_ip r) then (st, [], js)
+    else
+      let itf := mkIntf idx (if_name itf0) (if_addrs itf0 ++ [a]) in
+      let intfs := map (fun i => if if_index i =? idx then itf else i) (d_intfs st) in
+      let '(svcs, rg, os, js') := add_row_services (d_svcs st) itf (get_reg st idx) (os_ip r) now js in
+      (mkD intfs (nset idx rg (d_regs st)) svcs (d_retrans st) (d_mon st) (d_dead st) (d_os st) (d_sel st),
+       os ++ mon (d_mon st) [OIp true (os_ip r)], js')
+  | None =>
+    let itf := mkIntf idx (os_name r) [a] in
+    let '(svcs, rg, os, js') := add_row_services (d_svcs st) itf (get_reg st idx) (os_ip r) now js in
+    (mkD (d_intfs st ++ [itf]) (nset idx rg (d_regs st)) svcs (d_retrans st) (d_mon st) (d_dead st) (d_os st) (d_sel st),
+     os ++ mon (d_mon st) [OIp true (os_ip r)], js')
+  end.
+
+(* del_interface_addr: the address leaves the interface; the last address takes the interface and
+   its registry with it; addr_auto services lose the address *)
+Definition del_interface_addr (st : dstate) (r : osrow) : dstate * list out :=
+  let idx := os_index r in
+  match find_intf st idx with
+  | None => (st, [])
+  | Some itf0 =>
+    if negb (has_addr itf0 (os_ip r)) then (st, [])
+    else
+      let addrs := filter (fun a => negb (beq (ia_ip a) (os_ip r))) (if_addrs itf0) in
+      let svcs := map (fun ks => (fst ks, if s_auto (snd ks) then set_addrs (del_ip (os_ip r) (s_addrs (snd ks))) (snd ks)
+                                          else snd ks)) (d_svcs st) in
+      let ev := mon (d_mon st) [OIp false (os_ip r)] in
+      match addrs with
+      | [] =>
+        (mkD (filter (fun i => negb (if_index i =? idx)) (d_intfs st)) (nremove idx (d_regs st)) svcs
+             (d_retrans st) (d_mon st) (d_dead st) (d_os st) (d_sel st), ev)
+      | _ =>
+        (mkD (map (fun i => if if_index i =? idx then mkIntf idx (if_name itf0) addrs else i) (d_intfs st))
+             (d_regs st) svcs (d_retrans st) (d_mon st) (d_dead st) (d_os st) (d_sel st), ev)
+      end
+  end.
+
+Fixpoint apply_rows (st : dstate) (rows : list osrow) (now : N) (js : list N) : dstate * list out * list N :=
+  match rows with
+  | [] => (st, [], js)
+  | r :: t =>
+    let '(st1, os1, js1) :=
+      if row_selected (d_sel st) r then add_interface st r now js
+      else let (st', os') := del_interface_addr st r in (st', os', js) in
+    let '(st2, os2, js2) := apply_rows st1 t now js1 in
+    (st2, os1 ++ os2, js2)
+  end.
+
+(* enable_interface(kinds) / disable_interface(kinds) *)
+Definition select_interfaces (st : dstate) (enable : bool) (kinds : list ifkind) (now : N) (js : list N)
+  : dstate * list out * list N :=
+  let st1 := mkD (d_intfs st) (d_regs st) (d_svcs st) (d_retrans st) (d_mon st) (d_dead st) (d_os st)
+                 (d_sel st ++ map (fun k => (k, enable)) kinds) in
+  apply_rows st1 (d_os st1) now js.
+
 Inductive call : Type :=
 | CRegister (s : svc)
 | CUnregister (name ch : bytes)      (* name as passed by the caller; ServiceDaemon::unregister lower-cases it *)
 | CMonitor
 | CShutdown
+| CIfSel (enable : bool) (kinds : list ifkind)     (* enable_interface / disable_interface *)
 | COther.                            (* a command without effect on the responder state *)
 
 (* one command; the boolean says that it was Exit (the commands behind it are dropped) *)
@@ -513,7 +658,8 @@ Definition exec_call (st : dstate) (c : call) (now : N) (js : list N) : dstate *
   | CRegister s => let '(st1, os1, js1) := register_service st s now js in (st1, os1, js1, false)
   | CUnregister n ch => let (st1, os1) := unregister st (lower n) ch now in (st1, os1, js, false)
   | CMonitor =>
-    (mkD (d_intfs st) (d_regs st) (d_svcs st) (d_retrans st) true (d_dead st) (d_mif4 st), [], js, false)
+    (mkD (d_intfs st) (d_regs st) (d_svcs st) (d_retrans st) true (d_dead st) (d_os st) (d_sel st), [], js, false)
+  | CIfSel en kinds => let '(st1, os1, js1) := select_interfaces st en kinds now js in (st1, os1, js1, false)
   | COther => (st, [], js, false)
   end.
 
@@ -544,7 +690,7 @@ Fixpoint run_due (st : dstate) (due : list (N * cmd)) (now : N) (js : list N) : 
 Definition retransmit (st : dstate) (now : N) (js : list N) : dstate * list out * list N :=
   let due := filter (fun e => fst e <=? now) (d_retrans st) in
   let rest := filter (fun e => negb (fst e <=? now)) (d_retrans st) in
-  run_due (mkD (d_intfs st) (d_regs st) (d_svcs st) rest (d_mon st) (d_dead st) (d_mif4 st)) due now js.
+  run_due (mkD (d_intfs st) (d_regs st) (d_svcs st) rest (d_mon st) (d_dead st) (d_os st) (d_sel st)) due now js.
 
 (* ---- one loop iteration --------------------------------------------------------------------------------------------------------------------------- *)
 
@@ -552,9 +698,7 @@ Record iter : Type := mkIter {
   it_now : N;
   it_dgrams : list dgram;      (* delivered before this iteration's processing, in delivery order *)
   it_calls : list call;
-  it_jitter : list N;
-  it_mif : option N }.         (* observed: interface of the last IPv4 packet of this iteration (the order of
-                                  same-iteration sends to different interfaces can come from a HashSet) *)
+  it_jitter : list N }.
 
 (* A name that cannot be written (a label of 64 bytes or more) trips assert!(s.len() < 64)
    in write_utf8 on the daemon thread: the thread dies at that send. *)
@@ -579,28 +723,6 @@ Fixpoint cut_at_panic (os : list out) : list out * bool :=
   | o :: t => let (r, p) := cut_at_panic t in (o :: r, p)
   end.
 
-(* The IPv4 socket's multicast interface is set by send_dns_outgoing (set_multicast_if_v4) and
-   NOT by exec_command_unregister_resend, which calls multicast_on_intf directly: a repeated
-   IPv4 goodbye leaves on the interface of the most recent IPv4 send. (For IPv6 the scope id of
-   the destination address selects the interface.) *)
-Fixpoint place_resends (mif : option N) (os : list out) : list out * option N :=
-  match os with
-  | [] => ([], mif)
-  | OSend i true d m :: t => let (r, f) := place_resends (Some i) t in (OSend i true d m :: r, f)
-  | OResend i true m :: t =>
-    let (r, f) := place_resends mif t in
-    (OSend (match mif with Some k => k | None => i end) true Mcast m :: r, f)
-  | OResend i false m :: t => let (r, f) := place_resends mif t in (OSend i false Mcast m :: r, f)
-  | o :: t => let (r, f) := place_resends mif t in (o :: r, f)
-  end.
-
-Definition set_mif (st : dstate) (f : option N) : dstate :=
-  mkD (d_intfs st) (d_regs st) (d_svcs st) (d_retrans st) (d_mon st) (d_dead st) f.
-
-(* the multicast interface the IPv4 socket is left with: as observed if the environment says so *)
-Definition final_mif (it : iter) (f : option N) : option N :=
-  match it_mif it with Some i => Some i | None => f end.
-
 Inductive ending := Running | Exited | Panicked.
 
 Definition iterate (st : dstate) (it : iter) : dstate * list out * ending * list N :=
@@ -613,15 +735,13 @@ Definition iterate (st : dstate) (it : iter) : dstate * list out * ending * list
     let '(st2, os2, js2) := exec_calls st1 (it_calls it) now js1 in
     if d_dead st2 then
       let (os, p) := cut_at_panic (os1 ++ os2) in
-      let (os', f) := place_resends (d_mif4 st) os in
-      (set_mif st2 (final_mif it f), os', if p then Panicked else Exited, js2)
+      (st2, os, if p then Panicked else Exited, js2)
     else
       let '(st3, os3, js3) := retransmit st2 now js2 in
       let '(st4, os4, js4) := probing_handler st3 now js3 in
       let (os, p) := cut_at_panic (os1 ++ os2 ++ os3 ++ os4) in
-      let (os', f) := place_resends (d_mif4 st) os in
-      if p then (mkD (d_intfs st4) (d_regs st4) (d_svcs st4) (d_retrans st4) (d_mon st4) true (final_mif it f), os', Panicked, js4)
-      else (set_mif st4 (final_mif it f), os', Running, js4).
+      if p then (mkD (d_intfs st4) (d_regs st4) (d_svcs st4) (d_retrans st4) (d_mon st4) true (d_os st4) (d_sel st4), os, Panicked, js4)
+      else (st4, os, Running, js4).
 
 Fixpoint run (st : dstate) (its : list iter) : list (list out * ending * list N) :=
   match its with
